@@ -6,7 +6,7 @@ import uuid as _uuid
 from sim import kernel, seams, prims
 from worlds import common
 
-USER_SIGNALS = ['SA', 'SB', 'SC', 'SD']
+USER_SIGNALS = ['SA', 'SB', 'SC', 'SD', 'SE']
 
 
 class AORun(object):
